@@ -1,0 +1,7 @@
+//go:build !verif
+// +build !verif
+
+package state
+
+func verifRecoverStart() {}
+func verifRecoverDone()  {}
